@@ -65,7 +65,7 @@ Proof. exact set_clean_sound. Qed.
 (* queryTerm.QueryConditions: every filter kind means what it says *)
 Theorem c03_conds_of_atom_sound :
   forall (v : valuation), val_ok v -> forall a : atom, atom_wf a ->
-    eval_set v (conds_of_atom a) = atom_holds v a 0%N /\ cset_wf (conds_of_atom a) /\ conds_of_atom a <> [].
+    eval_set v (conds_of_atom a) = atom_holds v a (v_start v) /\ cset_wf (conds_of_atom a) /\ conds_of_atom a <> [].
 Proof. exact conds_of_atom_sound. Qed.
 
 (* sequences: cleanDataConditions (duplicate / prefix elimination, contradictions) on sequences of any length *)
